@@ -994,7 +994,10 @@ where
                         match query_router.parse(&message) {
                             Ok(ast) => {
                                 if let Ok(output) = query_router.execute_plugins(&ast).await {
-                                    plugin_output = Some(output);
+                                    // A verdict on an earlier Parse of this batch stands.
+                                    if matches!(plugin_output, None | Some(PluginOutput::Allow)) {
+                                        plugin_output = Some(output);
+                                    }
                                 }
 
                                 let _ = query_router.infer(&ast);
@@ -1311,7 +1314,10 @@ where
                         if query_router.query_parser_enabled() {
                             if let Ok(ast) = query_router.parse(&message) {
                                 if let Ok(output) = query_router.execute_plugins(&ast).await {
-                                    plugin_output = Some(output);
+                                    // A verdict on an earlier Parse of this batch stands.
+                                    if matches!(plugin_output, None | Some(PluginOutput::Allow)) {
+                                        plugin_output = Some(output);
+                                    }
                                 }
                             }
                         }
